@@ -14,6 +14,7 @@ CONSTANTS U,        \* universe: finite set of integer points in strictly convex
           MinPts, MaxPts,
           Off,      \* integer translation <<ox,oy,oz>>
           EmitOn,
+          WithPoints,  \* TRUE: records carry the membership classification of the lattice points around the solid
           InitAll   \* TRUE: every non-degenerate 4-subset is an initial state; FALSE: one fixed seed (simulation)
 
 VARIABLE V       \* chosen subset of U
@@ -91,6 +92,22 @@ Record ==
          edges |-> {<<IndexOf(vs, CHOOSE p \in e : \A q \in e \ {p} : LexLt(p, q)) - 1,
                       IndexOf(vs, CHOOSE p \in e : \A q \in e \ {p} : LexLt(q, p)) - 1>> : e \in UNION {FacetEdges(F, W) : F \in Fs}} ]
 
-Emit == (EmitOn /\ Cardinality(V) >= MinPts) => PrintT(ToJson(Record))
+(* ---- membership (C05): a lattice point q against the facet half-spaces n.x <= off ------------- *)
+\* 1 = strictly inside, 0 = strictly outside, 2 = on the boundary (never asserted)
+DMember(q, Fs) == IF \E F \in Fs : Dot3(PrimNormal(F, W), q) > FacetOffset(F, W) THEN 0
+                  ELSE IF \E F \in Fs : Dot3(PrimNormal(F, W), q) = FacetOffset(F, W) THEN 2 ELSE 1
+Lo(k) == (CHOOSE p \in W : \A r \in W : p[k] <= r[k])[k] - 1
+Hi(k) == (CHOOSE p \in W : \A r \in W : p[k] >= r[k])[k] + 1
+QPts == LET l1 == Lo(1)  l2 == Lo(2)  l3 == Lo(3)
+            n1 == Hi(1) - l1 + 1  n2 == Hi(2) - l2 + 1  n3 == Hi(3) - l3 + 1
+        IN [i \in 1..n1 * n2 * n3 |-> << l1 + ((i - 1) \div (n2 * n3)), l2 + (((i - 1) \div n3) % n2), l3 + ((i - 1) % n3) >>]
+PointRecord == LET Fs == Facets(W)  QQ == QPts
+                   hs == {<<PrimNormal(F, W), FacetOffset(F, W)>> : F \in Fs}
+                   mem(q) == IF \E hp \in hs : Dot3(hp[1], q) > hp[2] THEN 0
+                             ELSE IF \E hp \in hs : Dot3(hp[1], q) = hp[2] THEN 2 ELSE 1
+               IN [q |-> QQ, mem |-> [i \in 1..Len(QQ) |-> mem(QQ[i])]]
+FullRecord == IF WithPoints THEN [r |-> Record, p |-> PointRecord] ELSE [r |-> Record]
+
+Emit == (EmitOn /\ Cardinality(V) >= MinPts) => PrintT(ToJson(FullRecord))
 ViewV == V
 =============================================================================
